@@ -58,7 +58,10 @@ def main(argv: list[str]) -> int:
 
             payload = json.loads(f.read_text())
             case = ast.literal_eval(payload["case_py"]) if "case_py" in payload else payload.get("case", payload)
-            r = mod.oracle(case)
+            try:
+                r = mod.oracle(case)
+            except Exception as e:  # noqa: BLE001  (the implementation raised where the oracle does not expect it)
+                r = ("raises", f"corpus case {f.name}: {type(e).__name__}: {e}")
             ctx.count(("corpus", f.name), True, "corpus")
             if r is not None:
                 ctx.oracle_fail(case, r[0], r[1])
@@ -93,5 +96,24 @@ def main(argv: list[str]) -> int:
     return core.finish(ctx, proofs)
 
 
+def guarded(argv: list[str]) -> int:
+    """whatever goes wrong inside the harness itself on a run (not a replay), the verdict is never a bare traceback: the
+    property is then not shown to hold on this tree, and the line says so"""
+    try:
+        return main(argv)
+    except Exception:  # noqa: BLE001
+        tb = traceback.format_exc()
+        print(tb[-3000:], file=sys.stderr)
+        if len(argv) >= 2 and argv[1] in ("quick", "thorough"):
+            prop = argv[0].upper()
+            core.REPLAYS.mkdir(parents=True, exist_ok=True)
+            path = core.REPLAYS / f"{prop}-harness-{core.jhash(tb)}.json"
+            path.write_text(json.dumps({"kind": "harness", "property": prop,
+                                        "no_longer_checks": f"the {prop} check could not run to completion on this tree (exception outside the "
+                                                            f"property module's own retry loop)", "traceback": tb[-3000:]}, indent=1) + "\n")
+            print(f"VIOLATION property={prop} replay={path} no-failing-input-found")
+        return 1
+
+
 if __name__ == "__main__":
-    sys.exit(main(sys.argv[1:]))
+    sys.exit(guarded(sys.argv[1:]))
